@@ -163,8 +163,13 @@ def rule_r2(rep, repo):
                               f"atom are assigned in every chunk after the first", where)
             else:
                 rep.ok("R2.chunk-table-shift", "BeckeWeights.__call__", where, shifted)
-            if clip_ok:
+            bare = txt in (shifted, f"({shifted})")
+            known_clip = clip_ok or txt in (f"np.where({shifted} < 0, 0, {shifted})", f"np.where({shifted} > 0, {shifted}, 0)")
+            if known_clip:
                 rep.ok("R2.chunk-table-clipped", "BeckeWeights.__call__", where, txt)
+            elif shifted in txt and not bare and not txt.startswith(f"({shifted}).clip(") and "clip" not in txt \
+                    and "maximum" not in txt:
+                raise AnalysisError(f"unrecognised idiom: shifted segment table passed as `{txt}` (cannot tell whether it is clipped)")
             else:
                 rep.violation("R2.chunk-table-clipped", "becke.BeckeWeights.__call__", "clip",
                               f"shifted segment table `{txt}` is not clipped at zero: a negative bound is a wrap-around "
